@@ -266,6 +266,9 @@ type absFn struct {
 	done       bool
 	inFixpoint bool
 	defBusy    bool
+	// paramOv: argument intervals when this function is evaluated inline for one call site
+	paramOv     map[*ssa.Parameter]Itv
+	inlineDepth int
 }
 
 type evalKey struct {
@@ -751,6 +754,34 @@ func (a *absFn) structItv(v ssa.Value, block int) Itv {
 				n := a.eval(x.Common().Args[0], block)
 				return Itv{0, n.Hi - 1}
 			}
+			// a value helper extracted after the review (inline.go): evaluate its
+			// single return expression with the argument intervals of this call
+			if inlineable(g) && effectFree(g) && a.inlineDepth < 2 {
+				var ret *ssa.Return
+				n := 0
+				Instrs(g, func(in ssa.Instruction) {
+					if r, ok := in.(*ssa.Return); ok {
+						ret = r
+						n++
+					}
+				})
+				if n == 1 && len(ret.Results) == 1 {
+					ca := &absFn{an: a.an, fn: g, t: NewTermer(g), facts: map[int][]LinForm{}, phiBase: map[*ssa.Phi]Itv{}, rootVal: map[string]ssa.Value{}, keyMemo: map[ssa.Value]string{}, evalMemo: map[evalKey]Itv{}, busy: map[evalKey]bool{}, paramOv: map[*ssa.Parameter]Itv{}, inlineDepth: a.inlineDepth + 1}
+					ca.t.Versioned = true
+					for i, p := range g.Params {
+						if i < len(x.Common().Args) && isIntType(p.Type()) {
+							ca.paramOv[p] = a.eval(x.Common().Args[i], block)
+						}
+					}
+					ca.init()
+					return ca.eval(ret.Results[0], ret.Block().Index).meet(tr)
+				}
+			}
+		}
+		return tr
+	case *ssa.Parameter:
+		if ov, ok := a.paramOv[x]; ok {
+			return ov.meet(tr)
 		}
 		return tr
 	}
